@@ -952,6 +952,10 @@ def _run(ctx, fl, sc):
     if errs:
         raise errs[0]
 
+    if ctx.violations and (build.tree_hash() != build.current_hash() or not all(os.path.exists(b) for b in (fl.nano_vmd, fl.nano_vm, fl.nano_cop))):
+        # what was observed cannot be attributed to one definite tree / build: not a verdict
+        raise core.Inconclusive("/repo (or the cached build in %s) changed while the check was running; unattributable observations: %s"
+                                % (fl.root, [v[0] for v in ctx.violations][:6]))
     conc = st.max_status_executing
     ctx.require(st.sessions >= 20, "too few sessions (%d)" % st.sessions)
     ctx.require(conc >= 2, "the daemon never reported two sessions in service at once (max %d): no concurrency observed" % conc)
